@@ -97,11 +97,18 @@ def uninstall():
     asyncio.as_completed = _orig_as_completed
 
 
+NONE = 1000
+
+
 def gen_case(rng):
     c = rng.choice([1, 1, 2, 3, 4, 5, 7, 8, 12])
     k = rng.randint(0, 4)
     n = max(0, min(40, k * c + rng.choice([0, 0, 1, -1, 2, c // 2])))
     xs = [rng.randint(-50, 50) for _ in range(n)]
+    if n and rng.random() < 0.2:
+        # None is a legitimate element (an optional value): it travels as the number NONE on the model side
+        for _ in range(rng.randint(1, 3)):
+            xs[rng.randrange(n)] = NONE
     fail = []
     if n and rng.random() < 0.2:
         fail = sorted({rng.choice(xs) for _ in range(rng.randint(1, 2))})
@@ -116,6 +123,7 @@ def run_impl(case, rng):
     calls = []
 
     def f(x):
+        x = NONE if x is None else x
         calls.append(x)
         if x in case['fail']:
             raise Boom(x)
@@ -123,6 +131,7 @@ def run_impl(case, rng):
 
     CTL.execs.clear(); CTL.used.clear(); CTL.threads.clear(); CTL.style = case['style']; CTL.rng = rng
     xs = case['xs']
+    xs = [None if x == NONE else x for x in xs]
     arg = (x for x in xs) if case['gen'] else list(xs)
     try:
         if case['which'] == 'new':
